@@ -1191,6 +1191,29 @@ type stOuter struct {
 }
 type stNamedList []stUnexp
 
+// two DIFFERENT Go struct types that print alike (reflect.Type.String() is "props.row" for both:
+// the same local type name in two functions, as two packages of one name would give)
+func sameNameA() (empty, filled interface{}) {
+	type row struct {
+		ID  float64 `yae:"id"`
+		Qty float64 `yae:"qty"`
+	}
+	return []row{}, []row{{1, 2}}
+}
+
+func sameNameB() (empty, filled interface{}) {
+	type row struct {
+		ID   float64 `yae:"id"`
+		Name string  `yae:"name"`
+	}
+	return []row{}, []row{{1, "n"}}
+}
+
+func sameNamePair(f func() (interface{}, interface{})) [2]interface{} {
+	a, b := f()
+	return [2]interface{}{a, b}
+}
+
 type StaticPairCase struct {
 	Name string `json:"name"`
 }
@@ -1204,6 +1227,8 @@ var staticPairs = map[string][2]interface{}{
 	"array-of-structs":          {[2]stUnexp{}, [2]stUnexp{{1, "a"}, {2, "b"}}},
 	"slice-of-embedded":         {[]stOuter{}, []stOuter{{Rows: []stUnexp{}, M: map[string]stUnexp{}}}},
 	"map-of-slices":             {map[int][]stInner{}, map[int][]stInner{1: {{1, false}}}},
+	"same-type-name-first":      sameNamePair(sameNameA),
+	"same-type-name-second":     sameNamePair(sameNameB),
 	"pointer-to-struct-of-list": {&stOuter{Rows: []stUnexp{}, M: map[string]stUnexp{}}, &stOuter{Rows: []stUnexp{{}}, M: map[string]stUnexp{"a": {}}}},
 }
 
@@ -1252,7 +1277,7 @@ func checkStaticPair(c *StaticPairCase) *Outcome {
 var c15static = Register(&Prop[StaticPairCase]{ID: "C15", Name: "static-type-pairs", Check: checkStaticPair})
 
 func TestC15(t *testing.T) {
-	R.Rule = "Go values built by reflection to depth 4: all integer / float widths, bool, string (incl. invalid UTF-8), time.Time in several zones with nanoseconds, pointers, slices, arrays, maps with primitive / time keys, structs via reflect.StructOf with yae tags (name, name+maybe, maybe only, padded / upper-case, untagged), interface-typed parts, nil-able parts nil or non-nil, unsupported kinds (chan, func, complex, uintptr); pairs of values of one Go type; statically declared Go types with unexported fields, embedded structs and named element types (empty / nil vs filled values of one type); plus fixed error classes (nil, typed nils, mixed interface slices, 101-deep nesting, recursive Go type, duplicate tag names, struct-keyed map); oracle: relations between ValOf, TypeOf, the environment conversions and the harness's reading of the Go value (contents, order, field names, optional-ness), type stability across values of one Go type for the stable class and acceptance of a sibling value by a compiled expression; non-trivial = value with >= 2 nesting levels and a pointer, map, tagged field, time or interface element"
+	R.Rule = "Go values built by reflection to depth 4: all integer / float widths, bool, string (incl. invalid UTF-8), time.Time in several zones with nanoseconds, pointers, slices, arrays, maps with primitive / time keys, structs via reflect.StructOf with yae tags (name, name+maybe, maybe only, padded / upper-case, untagged), interface-typed parts, nil-able parts nil or non-nil, unsupported kinds (chan, func, complex, uintptr); pairs of values of one Go type; statically declared Go types with unexported fields, embedded structs and named element types, two different struct types of one printed name (empty / nil vs filled values of one type); plus fixed error classes (nil, typed nils, mixed interface slices, 101-deep nesting, recursive Go type, duplicate tag names, struct-keyed map); oracle: relations between ValOf, TypeOf, the environment conversions and the harness's reading of the Go value (contents, order, field names, optional-ness), type stability across values of one Go type for the stable class and acceptance of a sibling value by a compiled expression; non-trivial = value with >= 2 nesting levels and a pointer, map, tagged field, time or interface element"
 	R.Assume = []string{"expect() in props/c15_test.go is the documented type mapping (README table + tag syntax)", "numeric map keys within ±2^53"}
 	reportKnown(t, "C15")
 	runRegress(t, "C15")
